@@ -4,6 +4,7 @@
   In the model the system state of the system stored on entity `sys` is `(s.info sys)`: its run counter `nruns` is what
   a `Local` counter (and a counter captured by the closure) holds. A body is started by `startBody` only.
 -/
+import Cobweb.Proofs.Boot
 import Cobweb.Proofs.CtlStep
 import Cobweb.Proofs.Frames
 import Cobweb.Proofs.Counts
@@ -55,21 +56,21 @@ theorem no_concurrent_instance {p : Prog} {h : Hist} {s0 s : St} (hc : Ctl s0) (
     counter held by system `sys` (its `Local` / the counter captured by its closure) equals the number of bodies of `sys`
     that have started — it was never reset, re-created or advanced by another system's run, whatever nesting,
     postponement and interleaving happened. -/
-theorem counter_is_number_of_runs {p : Prog} {h : Hist} {s : St} (hr : Reach p h ({} : St) s) (sys : Nat) :
+theorem counter_is_number_of_runs {p : Prog} {h : Hist} {s : St} {s0 : St} (hI0 : CoreInv s0) (hr : Reach p h s0 s) (sys : Nat) :
     (s.info sys).nruns = nBody sys s :=
-  (runs_reach p h ctl_default runs_default hr).cnt sys
+  ((core_reach_from p h hI0 hr).runs).cnt sys
 
 /-- **Every run sees the state left by the previous run of the same system**: every `body sys r _` event of every
     reachable trace carries `r` = the number of `body sys` events before it (the trace is newest first, so "before it" is
     the tail). In particular the k-th run of a system reads k − 1, for runs postponed by recursion and runs
     interleaved with nested runs of other systems alike. -/
-theorem run_label_counts_earlier_runs {p : Prog} {h : Hist} {s : St} (hr : Reach p h ({} : St) s) : BodyIdx (ct s) :=
-  (runs_reach p h ctl_default runs_default hr).idx
+theorem run_label_counts_earlier_runs {p : Prog} {h : Hist} {s : St} {s0 : St} (hI0 : CoreInv s0) (hr : Reach p h s0 s) : BodyIdx (ct s) :=
+  ((core_reach_from p h hI0 hr).runs).idx
 
 /-- A system that does not exist yet has not run. -/
-theorem unborn_never_ran {p : Prog} {h : Hist} {s : St} (hr : Reach p h ({} : St) s) (sys : Nat) (hs : s.nextEnt ≤ sys) :
+theorem unborn_never_ran {p : Prog} {h : Hist} {s : St} {s0 : St} (hI0 : CoreInv s0) (hr : Reach p h s0 s) (sys : Nat) (hs : s.nextEnt ≤ sys) :
     nBody sys s = 0 :=
-  (runs_reach p h ctl_default runs_default hr).fresh sys hs
+  ((core_reach_from p h hI0 hr).runs).fresh sys hs
 
 /-- Unfolding of `BodyIdx` at one event, as a readable statement. -/
 theorem bodyIdx_split {l : List Ev} (hl : BodyIdx l) (l1 l2 : List Ev) (sys r : Nat) (o : Obs)
